@@ -1353,7 +1353,25 @@ fn part_frame(case_index: u64, case_seed: u64, r: &mut Report) {
             } else if !matches!(e, TcpError::MessageTooLarge { .. }) {
                 r.violation("frame:encode-wrong-error", format!("{}: {}", ctx, e), replay);
             } else {
+                // the limit is documented for the decoder as well: exactly this (valid, too long)
+                // payload must be refused there too
+                // (v2 counts the flags byte on the encoder side only; a payload of exactly
+                // max_frame_length is therefore not demanded to be refused)
+                let accepted = if raw.len() <= spec.max {
+                    false
+                } else if spec.v2 {
+                    let mut p = vec![tcpc::flags::NONE];
+                    p.extend_from_slice(&raw);
+                    codec.decode_payload_v2(&p).is_ok()
+                } else {
+                    codec.decode_payload(&raw).is_ok()
+                };
+                if accepted {
+                    r.violation("frame:decoder-accepts-payload-above-max-frame-length", format!("{}: a {} byte payload is decoded although max_frame_length is {}", ctx, raw.len(), spec.max), replay);
+                    return;
+                }
                 r.count("frame_encode_too_large", 1);
+                r.count("frame_oversize_payload_refused_by_decoder", 1);
                 r.eval(hash_bytes(&raw), false);
             }
             return;
@@ -1659,9 +1677,9 @@ fn part_tt(case_seed: u64, r: &mut Report) {
     r.count_max("max:tt_rel_error_ppm", (rel * 1e6) as u64);
     if !(rel <= bound) {
         r.violation(
-            // marginal = within 5x of the documented figure (the SVD's fixed 20 power iterations);
-            // small-norm = the scale-dependent failure (absolute thresholds in decompose.rs); gross = anything else
-            format!("tt:error-above-documented-bound:{}:{}", preset, if rel <= 5.0 * bound { "marginal" } else if scale < 1.0 { "small-norm" } else { "gross" }),
+            // small-norm = far off on an input of norm < 1 (the scale-dependent failure: absolute
+            // thresholds in decompose.rs); svd-accuracy = everything else (rare, any norm)
+            format!("tt:error-above-documented-bound:{}:{}", preset, if scale < 1.0 && rel > 5.0 * bound { "small-norm" } else { "svd-accuracy" }),
             format!("dim {} shape {:?} preset {} (max_rank {}, tol {}), input of TT-rank <= {} and norm {:e}: returned ranks {:?} (below the cap) but relative L2 error {:.4} > {}", dim, cfg.shape, preset, cfg.max_rank, cfg.tolerance, true_rank.max(if class <= 2 { 4 } else { 0 }), scale, ranks, rel, bound),
             replay,
         );
